@@ -37,6 +37,9 @@ m = {
         {"name": "coq-model+corr-harness", "path": "/verif/coq (theories/Cnn/{Model,Spec,Proofs,Properties}.v) + /verif/harness (vcheck.py, vlib.py, props/cnn.py)",
          "serves_properties": [c["property_id"] for c in checks],
          "kind_free_text": "Coq 8.16 theorems over hand-written executable Gallina models; each run re-checks Properties.v with coqc and ties the model to /repo by running implementation and model (vm_compute inside Coq) on the same generated cases"},
+        {"name": "py2coq+MiniPy source ties", "path": "/verif/harness/py2coq (translate.py, units/*.json) + /verif/coq/theories/MiniPy (Syntax, Interp, Lemmas) + /verif/coq/theories/Cnn/{SrcRun,Tie}.v; generated terms in /verif/coq/theories/Gen (regenerated every run)",
+         "serves_properties": sorted({json.loads(f.read_text())["property"] for f in (V / "harness" / "py2coq" / "units").glob("*.json")}),
+         "kind_free_text": "fail-closed Python-ast -> MiniPy (deep embedding in Coq) translator re-run on /repo's working tree by every check; kernel-checked theorems that the interpreted source refines the hand-written model for all inputs; the interpreter itself is run (vm_compute) against CPython on the cases of each run"},
     ],
     "checks": checks,
     "not_applicable": na,
